@@ -150,6 +150,12 @@ def more_templates():
                              two)),
         ('Data', 2, 1): F(('bin', '*', ('ref', None, 1, 1, False, False),
                            two))}, [('Sheet1', 1, 1), ('Data', 1, 1)], [3]
+    # a sign / percent directly on a reference
+    yield 'signed-reference', {
+        K('A1'): 3, K('A2'): 2,
+        K('B1'): F(('bin', '+', ('neg', r('A1')), two)),
+        K('C1'): F(('bin', '*', r('A2'), ('neg', r('A1'))))}, \
+        [K('A1')], [5, -1]
     # an input that does not exist when the model is compiled
     yield 'ghost-input', {
         K('A1'): 1, K('B1'): F(('bin', '+', r('A1'), r('G9'))),
